@@ -62,3 +62,26 @@ add("C11", "model_checking", "explicit-state model checking of all six decoders 
 add("C12", "model_checking", "explicit-state model checking of all six decoders for totality (no panic, object xor error, nil-receiver agreement, sanity of every distinct object left behind by a failed decode), all byte strings <=5/6 over a 12-byte alphabet, 1 MiB inputs, observers on nil/fresh objects, single-field resets",
     "Totality over 'any string' rests on the closure of the decoder graphs (every transition of every expanded state executed) plus exhaustive short byte strings; receiver states are enumerated as nil, fresh, every distinct failed-decode state reached, and decoded objects with each field reset.",
     GRAPH_NOTE + "IsEmpty() on a nil v2 receiver is outside the property's operation list.", "5.2, 5.3, 6 (C12)", "GRAPH")
+
+ENGINES.append({"name": "HIST", "path": "mc/cmd/cvssmc/hist.go, mc/cmd/gendump", "serves_properties": ["C15"],
+     "kind_free_text": "breadth-first search over operation sequences on live objects; state key = reflective object dump + dump of every package-level variable (generated from the current tree, injected by -overlay); successors by replay; differential invariants between histories and against a pristine process (DESIGN.md 5.3)"})
+ENGINES.append({"name": "TMPL", "path": "mc/cmd/cvssmc/tmpl.go", "serves_properties": ["C19"],
+     "kind_free_text": "all template programs up to a size over a small grammar against text/template as reference; every reader behaviour and every read-failure position (DESIGN.md 5.5)"})
+ENGINES.append({"name": "TABLES", "path": "mc/cmd/cvssmc/tables.go, names.go, reports.go", "serves_properties": ["C17", "C18", "C20"],
+     "kind_free_text": "complete enumeration of finite tables (codes, enum integers, weights, names x languages) and deviation-bounded enumeration of report inputs"})
+
+add("C15", "model_checking", "explicit-state search over operation histories on live objects (depth 3/4) with state key = object dump + all package-level variables, successors by replay on the real code, differential invariants I1-I3; plus all processing orders of colliding vectors",
+    "Every sequence of queries, single-field mutations and unrelated decodes up to the depth bound is executed from every start object (decoded, failed, fresh, nil); merging only on identical complete state (object + every package-level variable), so a hidden memo or shared table adds states instead of being missed.",
+    "Trusted: reflective dump of objects and of the package-level variables enumerated by go/parser from the current tree (mc/cmd/gendump). No expected values are assumed: results are compared between histories and with a pristine child process.", "5.3, 6 (C15)", "HIST")
+add("C17", "exploration", "deviation-bounded exhaustive enumeration: every vector within 2 (quick) / 3 (thorough) metric changes of 4 background vectors x 9 language settings x 3 report levels, every exported report field compared with a hand-wired oracle",
+    "Field wiring is per field, so two deviations already separate any two metrics; the field list is enumerated by reflection so that an uncovered field is an infrastructure error rather than silently skipped.",
+    "Trusted: the field->metric wiring table in mc/cmd/cvssmc/reports.go, names.* as oracle for display names (C18), the exact score oracle.", "6 (C17)", "TABLES")
+add("C18", "exploration", "complete enumeration of the finite name table: all 52 exported functions x all enumeration values (defined, zero, out-of-range) x 91 language tags",
+    "The domain is finite and enumerated completely; the function list is checked against a parse of the package.",
+    "Trusted: the function table in mc/cmd/cvssmc/names.go; regional en-*/ja-* variants are unspecified by the property and unchecked.", "6 (C18)", "TABLES")
+add("C19", "fault_enumeration", "bounded-exhaustive enumeration of template programs (all sequences of <=3/4 atoms over a 34-atom grammar) x 6 reports against text/template as reference, plus enumeration of every read-failure position and reader behaviour",
+    "All programs up to the size bound, valid and invalid, and every failure position k<=len of the template reader; the oracle is the property's own definition (Go's text/template on the same value).",
+    "Trusted: Go's text/template as reference. Typed-nil readers are outside the property.", "5.5, 6 (C19)", "TMPL")
+add("C20", "exploration", "complete enumeration of finite tables: 36 metrics + 2 version parsers x (all codes, all strings of length <=3 over A-Z0-9 as non-codes, all enumeration integers, all weight contexts)",
+    "Finite tables enumerated completely against the second transcription of the specification.",
+    ENUM_NOTE, "6 (C20)", "TABLES")
